@@ -106,12 +106,16 @@ class BatonSched(object):
                         break
         finally:
             run.sched, run.task = saved_sched, saved_task
-            # never leave a parked thread behind: let stragglers run to completion serially
+            # never leave a parked thread behind: let stragglers run to completion serially -- but within a bounded
+            # real time: a task that spins without crossing a seam (the wall-clock guard brought us here) is abandoned
+            # (the threads are daemons) rather than waited for
+            import time as _t
+            deadline = _t.monotonic() + 20.0
             for t in tasks:
                 if t.started and not t.done:
                     self.current = t
-                    while not t.done:
-                        self.main_evt.clear(); t.evt.set(); self.main_evt.wait(5)
+                    while not t.done and _t.monotonic() < deadline:
+                        self.main_evt.clear(); t.evt.set(); self.main_evt.wait(2)
                     self.current = None
         return tasks
 
@@ -128,6 +132,9 @@ class SimMap(object):
         n = len(items)
         run.counts['map'] += 1
         nmap = run.counts['map']
+        if run.map_budget is not None and nmap > run.map_budget:
+            raise env.SimHang("budget of map calls exceeded: this is map call #%d of the run (an ensemble with a generation limit "
+                              "G needs at most G+2 of them per Solve)" % nmap)
         rng = sub_rng(run.seed, 'sched/%s/%d' % (spec.get('salt', 0), nmap))
         run.probe('map.' + mode)
         fault = run.faults.get(('map', nmap))
